@@ -91,9 +91,10 @@ def check_case(case):
         return ("zck-hang", "zck did not terminate within 60 s of CPU time: %s" % " ".join(cmd[1:]))
     if rc != 0:
         label("zck-refuses" if rc > 0 and "Sanitizer" not in err else "zck-abnormal")
-        if rc < 0 or "Sanitizer" in err or "runtime error" in err:
+        if rc < 0 or rc == 77 or "Sanitizer" in err or "runtime error" in err:
             return ("zck-crash", "zck died (status %d): %s" % (rc, err[-300:]))
-        return None
+        # every generated option set is a supported configuration and every input a legal one: refusing it is not a round trip
+        return ("zck-fails-on-legal-input", "zck exits %d on a legal input and option set (%s): %s" % (rc, " ".join(cmd[1:-1]), err[-200:]))
     label("zck-ok")
     if not os.path.exists(os.path.join(d, arch)):
         return ("archive-missing", "zck exited 0 but %s does not exist" % arch)
